@@ -132,7 +132,7 @@ def run(ctx):
     res = core.run_tlc("MC_C20", "MC_C20_%s.cfg" % ctx.tier, timeout=3000)
     core.tlc_must_pass(res, "MC_C20")
     ctx.add_tlc(res, "all ray pairs on the grid, all simple polygons x off-boundary half-integer points, all point sets")
-    resb = core.run_tlc("MC_C20b", "MC_C20b_%s.cfg" % ctx.tier, timeout=3000)
+    resb = core.run_model(ctx, "MC_C20b", 3000, thorough_seeds=(2, 3, 5))
     core.tlc_must_pass(resb, "MC_C20b")
     ctx.add_tlc(resb, "voxelisation and active control point lookup on surfaces/volumes with different sizes")
     ctx.theorems = THEOREMS
